@@ -370,15 +370,56 @@ func init() {
 	// ----- sync (cooperative, single running coroutine)
 	// the cooperative scheduler never preempts inside a critical section, so locking only matters
 	// to the happens-before analysis (race.go): unlock releases, lock acquires
-	lock := func(in *Interp, fr *frame, a []Value) Value { in.raceAcquire(cellKey("mutex", a[0])); return nil }
-	unlock := func(in *Interp, fr *frame, a []Value) Value { in.raceRelease(cellKey("mutex", a[0])); return nil }
-	for _, m := range []string{"(*sync.Mutex).Lock", "(*sync.RWMutex).Lock", "(*sync.RWMutex).RLock"} {
-		n[m] = lock
+	// Mutual exclusion is real: a goroutine that reaches Lock while another one is inside the
+	// critical section (it yielded there, e.g. at a close or a connection call) waits for Unlock.
+	type muState struct{ writer, readers int }
+	mu := func(in *Interp, v Value) *muState {
+		k := cellKey("mutex", v)
+		m, _ := in.ext2[k].(*muState)
+		if m == nil {
+			m = &muState{}
+			in.ext2[k] = m
+		}
+		return m
 	}
-	for _, m := range []string{"(*sync.Mutex).Unlock", "(*sync.RWMutex).Unlock", "(*sync.RWMutex).RUnlock"} {
-		n[m] = unlock
+	n["(*sync.Mutex).Lock"] = func(in *Interp, fr *frame, a []Value) Value {
+		m := mu(in, a[0])
+		if m.writer != 0 || m.readers != 0 {
+			in.yieldUntil(func() bool { return m.writer == 0 && m.readers == 0 })
+		}
+		m.writer = in.co.current.id + 1
+		in.raceAcquire(cellKey("mutex", a[0]))
+		return nil
+	}
+	n["(*sync.RWMutex).Lock"] = n["(*sync.Mutex).Lock"]
+	n["(*sync.RWMutex).RLock"] = func(in *Interp, fr *frame, a []Value) Value {
+		m := mu(in, a[0])
+		if m.writer != 0 {
+			in.yieldUntil(func() bool { return m.writer == 0 })
+		}
+		m.readers++
+		in.raceAcquire(cellKey("mutex", a[0]))
+		return nil
+	}
+	n["(*sync.Mutex).Unlock"] = func(in *Interp, fr *frame, a []Value) Value {
+		mu(in, a[0]).writer = 0
+		in.raceRelease(cellKey("mutex", a[0]))
+		return nil
+	}
+	n["(*sync.RWMutex).Unlock"] = n["(*sync.Mutex).Unlock"]
+	n["(*sync.RWMutex).RUnlock"] = func(in *Interp, fr *frame, a []Value) Value {
+		if m := mu(in, a[0]); m.readers > 0 {
+			m.readers--
+		}
+		in.raceRelease(cellKey("mutex", a[0]))
+		return nil
 	}
 	n["(*sync.Mutex).TryLock"] = func(in *Interp, fr *frame, a []Value) Value {
+		m := mu(in, a[0])
+		if m.writer != 0 || m.readers != 0 {
+			return in.st.False
+		}
+		m.writer = in.co.current.id + 1
 		in.raceAcquire(cellKey("mutex", a[0]))
 		return in.st.True
 	}
